@@ -261,6 +261,12 @@ class C12:
                     continue
                 # the insertion must really be foreign
                 inner_lang = [ctx.words[w][0] for w in ctx.words if w > before and w < after]
+                if inner_lang and inner_lang[0] == slang and all(x == slang for x in inner_lang):
+                    # an insertion in the language already in force is no foreign insertion and no \selectlanguage
+                    if part_of(before) != part_of(after):
+                        viol.append({'clause': 'an insertion in the language already in force does not end the part',
+                                     'sig': 'C12:split-same', 'detail': dict(det, before=before, after=after, words=nwords)})
+                    continue
                 if not inner_lang or inner_lang[0] == slang:
                     continue
                 same = part_of(before) == part_of(after)
